@@ -337,6 +337,11 @@ func newRuntimeState(compiled config.Compiled) *runtimeState {
 func (s *runtimeState) updateAll(compiled config.Compiled) {
 	s.mu.Lock()
 	defer s.mu.Unlock()
+	s.updateAllLocked(compiled)
+}
+
+// updateAllLocked requires s.mu to be held for writing.
+func (s *runtimeState) updateAllLocked(compiled config.Compiled) {
 	s.routes = compiled.Routes
 	s.pathToRoute = compiled.PathToRoute
 	s.trendSignals = compiled.Defaults.TrendSignals
@@ -849,11 +854,40 @@ func queueTrendSignalConfigFromCompiled(in config.TrendSignalsConfig) queue.Back
 }
 
 func (s *runtimeState) loadAuth(compiled config.Compiled) error {
+	swap, err := s.prepareAuth(compiled)
+	if err != nil {
+		return err
+	}
+	s.mu.Lock()
+	swap()
+	s.mu.Unlock()
+	return nil
+}
+
+// applyConfig switches authenticators, route table and limits to compiled under a
+// single write lock, so no request can observe new authenticators with old routes
+// (or vice versa). On error nothing is changed.
+func (s *runtimeState) applyConfig(compiled config.Compiled) error {
+	swap, err := s.prepareAuth(compiled)
+	if err != nil {
+		return err
+	}
+	s.mu.Lock()
+	swap()
+	s.updateAllLocked(compiled)
+	s.mu.Unlock()
+	return nil
+}
+
+// prepareAuth loads all secrets and builds the authenticators for compiled without
+// touching the live state. The returned func installs them; call it with s.mu held
+// for writing.
+func (s *runtimeState) prepareAuth(compiled config.Compiled) (func(), error) {
 	tokens := make([][]byte, 0, len(compiled.PullAPI.AuthTokens))
 	for _, ref := range compiled.PullAPI.AuthTokens {
 		b, err := secrets.LoadRef(ref)
 		if err != nil {
-			return fmt.Errorf("pull_api auth token %q: %w", ref, err)
+			return nil, fmt.Errorf("pull_api auth token %q: %w", ref, err)
 		}
 		tokens = append(tokens, b)
 	}
@@ -862,7 +896,7 @@ func (s *runtimeState) loadAuth(compiled config.Compiled) error {
 	for _, ref := range compiled.AdminAPI.AuthTokens {
 		b, err := secrets.LoadRef(ref)
 		if err != nil {
-			return fmt.Errorf("admin_api auth token %q: %w", ref, err)
+			return nil, fmt.Errorf("admin_api auth token %q: %w", ref, err)
 		}
 		adminTokens = append(adminTokens, b)
 	}
@@ -871,7 +905,7 @@ func (s *runtimeState) loadAuth(compiled config.Compiled) error {
 	for id, sc := range compiled.Secrets {
 		b, err := secrets.LoadRef(sc.ValueRef)
 		if err != nil {
-			return fmt.Errorf("secret %q value %q: %w", id, sc.ValueRef, err)
+			return nil, fmt.Errorf("secret %q value %q: %w", id, sc.ValueRef, err)
 		}
 		secretVersions[id] = secrets.Version{
 			ID:         id,
@@ -891,7 +925,7 @@ func (s *runtimeState) loadAuth(compiled config.Compiled) error {
 		for _, ref := range rt.Pull.AuthTokens {
 			b, err := secrets.LoadRef(ref)
 			if err != nil {
-				return fmt.Errorf("route %q pull auth token %q: %w", rt.Path, ref, err)
+				return nil, fmt.Errorf("route %q pull auth token %q: %w", rt.Path, ref, err)
 			}
 			routeTokens = append(routeTokens, b)
 		}
@@ -932,7 +966,7 @@ func (s *runtimeState) loadAuth(compiled config.Compiled) error {
 		for _, ref := range rt.AuthHMACSecrets {
 			b, err := secrets.LoadRef(ref)
 			if err != nil {
-				return fmt.Errorf("route %q auth hmac secret %q: %w", rt.Path, ref, err)
+				return nil, fmt.Errorf("route %q auth hmac secret %q: %w", rt.Path, ref, err)
 			}
 			secs = append(secs, b)
 		}
@@ -946,7 +980,7 @@ func (s *runtimeState) loadAuth(compiled config.Compiled) error {
 			seenRefs[ref] = struct{}{}
 			v, ok := secretVersions[ref]
 			if !ok {
-				return fmt.Errorf("route %q auth hmac secret_ref %q not found", rt.Path, ref)
+				return nil, fmt.Errorf("route %q auth hmac secret_ref %q not found", rt.Path, ref)
 			}
 			versions = append(versions, v)
 		}
@@ -967,7 +1001,7 @@ func (s *runtimeState) loadAuth(compiled config.Compiled) error {
 		if len(versions) > 0 {
 			set := secrets.Set{Versions: versions}
 			if err := set.Validate(); err != nil {
-				return fmt.Errorf("route %q auth hmac secret_ref invalid: %w", rt.Path, err)
+				return nil, fmt.Errorf("route %q auth hmac secret_ref invalid: %w", rt.Path, err)
 			}
 			auth.SelectSecrets = func(at time.Time) [][]byte {
 				valid := set.ValidAt(at)
@@ -984,21 +1018,20 @@ func (s *runtimeState) loadAuth(compiled config.Compiled) error {
 		hmacByRoute[rt.Path] = auth
 	}
 
-	s.mu.Lock()
-	// Replay protection must survive a reload: keep each route's nonce cache.
-	for route, auth := range hmacByRoute {
-		auth.InheritNonceCache(s.hmacByRoute[route])
-	}
-	s.pullAuthorize = pullapi.BearerTokenAuthorizer(tokens)
-	s.workerAuthorize = workerapi.BearerTokenAuthorizer(tokens)
-	s.adminAuthorize = admin.BearerTokenAuthorizer(adminTokens)
-	s.pullByRoute = pullByRoute
-	s.workerByRoute = workerByRoute
-	s.basicByRoute = basicByRoute
-	s.forwardByRoute = forwardByRoute
-	s.hmacByRoute = hmacByRoute
-	s.mu.Unlock()
-	return nil
+	return func() {
+		// Replay protection must survive a reload: keep each route's nonce cache.
+		for route, auth := range hmacByRoute {
+			auth.InheritNonceCache(s.hmacByRoute[route])
+		}
+		s.pullAuthorize = pullapi.BearerTokenAuthorizer(tokens)
+		s.workerAuthorize = workerapi.BearerTokenAuthorizer(tokens)
+		s.adminAuthorize = admin.BearerTokenAuthorizer(adminTokens)
+		s.pullByRoute = pullByRoute
+		s.workerByRoute = workerByRoute
+		s.basicByRoute = basicByRoute
+		s.forwardByRoute = forwardByRoute
+		s.hmacByRoute = hmacByRoute
+	}, nil
 }
 
 func startBacklogTrendCapture(ctx context.Context, trendStore queue.BacklogTrendStore, logger *slog.Logger) {
@@ -1128,13 +1161,11 @@ func reloadConfig(path string, running config.Compiled, state *runtimeState, log
 		return running, false
 	}
 
-	if err := state.loadAuth(compiled); err != nil {
+	if err := state.applyConfig(compiled); err != nil {
 		logger.Error("config_reload_failed", slog.Any("err", err), slog.String("trigger", trigger))
 		return running, false
 	}
-	verifhook.Point("reload.after_load_auth")
-	state.updateAll(compiled)
-	verifhook.Point("reload.after_update_all")
+	verifhook.Point("reload.after_apply")
 
 	logger.Info("config_reloaded_ok", slog.String("trigger", trigger))
 	return compiled, true
